@@ -7,6 +7,8 @@
 #include <morfuse/Script/Context.h>
 #include <morfuse/Script/ClassDef.h>
 #include <morfuse/Script/ScriptVariable.h>
+#include <morfuse/Script/ScriptMaster.h>
+#include <morfuse/Common/StringDictionary.h>
 #include <morfuse/Common/SafePtr.h>
 #include <morfuse/Common/membuf.h>
 #include <morfuse/Common/str.h>
@@ -39,12 +41,23 @@ public:
     void free(void* ptr) noexcept override { std::free(ptr); }
 };
 
-enum Kind { KPrim, KRaw, KStr, KPtr, KSafe, KPos, KObj };
+enum Kind { KPrim, KRaw, KStr, KPtr, KSafe, KPos, KObj, KVal };
+enum VKind { VNone, VInt, VFloat, VChar, VStr, VConst0, VConst, VVec, VListener, VCArr, VCRef };
 enum PrimT { I8, I16, I32, I64, U8, U16, U32, U64, CHR, SIZE, BYTE, F32, F64, BOOL, POS, PRIM_BAD };
 const char* primNames[] = { "i8", "i16", "i32", "i64", "u8", "u16", "u32", "u64", "chr", "size", "byte", "f32", "f64", "bool", "pos" };
 const unsigned primWidth[] = { 1, 2, 4, 8, 1, 2, 4, 8, 1, 8, 1, 4, 8, 1, 4 };
 
+struct ValT {
+    VKind kind = VNone;
+    uint64_t num = 0;
+    Bytes bytes;
+    size_t lbl = 0;       // holder / listener
+    size_t rc = 0;
+    std::vector<std::pair<size_t, ValT>> elems;
+};
+
 struct ItemT {
+    ValT val;             // KVal
     Kind kind = KPrim;
     PrimT prim = U8;
     uint64_t value = 0;
@@ -75,6 +88,9 @@ struct Run {
     std::map<size_t, std::string> clsOf;       // label -> class name
     std::deque<Listener*> plain;               // plain pointer slots (must outlive the Archiver)
     std::deque<SafePtr<Listener>> safe;
+    std::deque<ScriptVariable> vars;           // top-level script variables (stable addresses)
+    std::map<size_t, ScriptConstArrayHolder*> holderVar;   // write side: const-array holder <label>
+    std::map<const void*, size_t> holderSeen;  // read side: holders already rendered -> label
 
     Listener* obj(size_t lbl)
     {
@@ -102,13 +118,128 @@ struct Run {
             collect(it.body);
         }
     }
+    size_t nextVar = 0;
+    // write side: every script variable exists (with its final sharing) before the archive is written
+    void prebuild(const std::vector<ItemT>& items)
+    {
+        for (auto& it : items) {
+            if (it.kind == KVal) { vars.emplace_back(); build(vars.back(), it.val); }
+            else if (it.kind == KObj) prebuild(it.body);
+        }
+    }
+    void build(ScriptVariable& v, const ValT& d);
+    void render(const ScriptVariable& v, const std::vector<size_t>& supply, size_t& next, std::string& out);
     ~Run()
     {
+        vars.clear();
         safe.clear();
         for (auto& kv : objs) delete kv.second;
     }
     void exec(Archiver& arc, const std::vector<ItemT>& items, std::vector<ItemT>& out);
 };
+
+std::string hexOf(const Bytes& b);
+
+void supplyOf(const ValT& d, std::vector<size_t>& out)
+{
+    if (d.kind != VCArr) return;
+    out.push_back(d.lbl);
+    for (auto& e : d.elems) { out.push_back(e.first); supplyOf(e.second, out); }
+}
+
+void Run::build(ScriptVariable& v, const ValT& d)
+{
+    switch (d.kind) {
+    case VNone: break;
+    case VInt: v.ClearInternal(); v.type = variableType_e::Integer; v.m_data.long64Value = (int64_t)d.num; break;
+    case VFloat: { v.ClearInternal(); v.type = variableType_e::Float; uint32_t b = (uint32_t)d.num; std::memcpy(&v.m_data.floatValue, &b, 4); break; }
+    case VChar: v.ClearInternal(); v.type = variableType_e::Char; v.m_data.charValue = (char)d.num; break;
+    case VStr: {
+        str s;
+        if (!d.bytes.empty()) { s.resize(d.bytes.size()); std::memcpy(const_cast<char*>(s.c_str()), d.bytes.data(), d.bytes.size()); }
+        v.setStringValue(s);
+        break;
+    }
+    case VConst0: v.setConstStringValue(const_str(0)); break;
+    case VConst: {
+        std::string t(d.bytes.begin(), d.bytes.end());
+        v.setConstStringValue(ScriptContext::Get().GetDirector().GetDictionary().Add(t.c_str()));
+        break;
+    }
+    case VVec: v.ClearInternal(); v.type = variableType_e::Vector; v.m_data.vectorValue = new float[3]; std::memcpy(v.m_data.vectorValue, d.bytes.data(), 12); break;
+    case VListener: v.setListenerValue(obj(d.lbl)); break;
+    case VCArr: {
+        std::vector<ScriptVariable> tmp(d.elems.size());
+        for (size_t i = 0; i < d.elems.size(); ++i) build(tmp[i], d.elems[i].second);
+        ScriptVariable dummy;
+        v.setConstArrayValue(tmp.empty() ? &dummy : tmp.data(), tmp.size());
+        holderVar[d.lbl] = v.m_data.constArrayValue;
+        break;
+    }
+    case VCRef: {
+        auto it = holderVar.find(d.lbl);
+        if (it != holderVar.end()) {
+            // what copying a variable that holds this array does
+            v.ClearInternal();
+            v.type = variableType_e::ConstArray;
+            v.m_data.constArrayValue = it->second;
+            it->second->refCount++;
+        }
+        break;
+    }
+    }
+}
+
+void Run::render(const ScriptVariable& v, const std::vector<size_t>& supply, size_t& next, std::string& out)
+{
+    auto take = [&]() -> size_t { return next < supply.size() ? supply[next++] : 0; };
+    switch (v.type) {
+    case variableType_e::None: out += "n"; break;
+    case variableType_e::Integer: out += "i " + std::to_string((uint64_t)v.m_data.long64Value); break;
+    case variableType_e::Float: { uint32_t b; std::memcpy(&b, &v.m_data.floatValue, 4); out += "f " + std::to_string(b); break; }
+    case variableType_e::Char: out += "c " + std::to_string((unsigned)(unsigned char)v.m_data.charValue); break;
+    case variableType_e::String: {
+        const str& s = *v.m_data.stringValue;
+        const unsigned char* p = reinterpret_cast<const unsigned char*>(s.c_str());
+        out += "s " + hexOf(Bytes(p, p + s.length()));
+        break;
+    }
+    case variableType_e::ConstString: {
+        if (v.m_data.constStringValue == 0u) { out += "k0"; break; }
+        const str& s = ScriptContext::Get().GetDirector().GetDictionary().Get(v.m_data.constStringValue);
+        const unsigned char* p = reinterpret_cast<const unsigned char*>(s.c_str());
+        out += "k " + hexOf(Bytes(p, p + s.length()));
+        break;
+    }
+    case variableType_e::Vector: {
+        const unsigned char* p = reinterpret_cast<const unsigned char*>(v.m_data.vectorValue);
+        out += "vec " + hexOf(Bytes(p, p + 12));
+        break;
+    }
+    case variableType_e::Listener:
+        out += "l " + std::to_string(labelOf(v.m_data.listenerValue ? v.m_data.listenerValue->Pointer() : nullptr));
+        break;
+    case variableType_e::ConstArray: {
+        const ScriptConstArrayHolder* h = v.m_data.constArrayValue;
+        if (!h) { out += "car 0"; break; }
+        auto it = holderSeen.find(h);
+        if (it != holderSeen.end()) { out += "car " + std::to_string(it->second); break; }
+        bool known = false;
+        for (auto& kv : objs) if ((const void*)kv.second == (const void*)h) known = true;
+        if (known) { out += "car 999999999"; break; }     // resolved to something that is not a holder
+        const size_t lbl = take();
+        holderSeen[h] = lbl;
+        out += "ca " + std::to_string(lbl) + " " + std::to_string(h->refCount) + " " + std::to_string(h->size);
+        for (size_t i = 1; i <= h->size; ++i) {
+            take();     // the element variable's own label
+            out += ' ';
+            render(h->constArrayValue[i], supply, next, out);
+        }
+        break;
+    }
+    default: out += "?kind" + std::to_string((int)v.type); break;
+    }
+}
 
 template<typename T> void primCall(Archiver& arc, void (Archiver::*fn)(T&), bool reading, uint64_t in, uint64_t& outv)
 {
@@ -195,6 +326,14 @@ void Run::exec(Archiver& arc, const std::vector<ItemT>& items, std::vector<ItemT
         case KPos:
             arc.ArchiveObjectPosition(obj(it.lbl));
             break;
+        case KVal: {
+            if (reading) vars.emplace_back();
+            const size_t vi = reading ? vars.size() - 1 : nextVar++;
+            out[me].slot = vi;
+            out[me].val = it.val;
+            vars[vi].ArchiveInternal(arc);
+            break;
+        }
         case KObj: {
             Listener* o = obj(it.lbl);
             if (VNode* n = dynamic_cast<VNode*>(o)) {
@@ -261,6 +400,43 @@ bool nat(const std::string& t, uint64_t& v)
 }
 
 bool parseItem(const std::vector<std::string>& t, size_t& i, ItemT& it);
+bool parseValue(const std::vector<std::string>& t, size_t& i, ValT& v)
+{
+    if (i >= t.size()) return false;
+    const std::string& k = t[i];
+    uint64_t a;
+    if (k == "n") { v.kind = VNone; i += 1; return true; }
+    if (k == "k0") { v.kind = VConst0; i += 1; return true; }
+    if (k == "i" || k == "f" || k == "c") {
+        if (i + 1 >= t.size() || !nat(t[i + 1], a)) return false;
+        if ((k == "f" && (a >> 32)) || (k == "c" && a > 255)) return false;
+        v.kind = k == "i" ? VInt : k == "f" ? VFloat : VChar; v.num = a; i += 2; return true;
+    }
+    if (k == "s" || k == "k" || k == "vec") {
+        if (i + 1 >= t.size() || !unhex(t[i + 1], v.bytes)) return false;
+        if (k == "vec" && v.bytes.size() != 12) return false;
+        v.kind = k == "s" ? VStr : k == "k" ? VConst : VVec; i += 2; return true;
+    }
+    if (k == "l" || k == "car") {
+        if (i + 1 >= t.size() || !nat(t[i + 1], a)) return false;
+        v.kind = k == "l" ? VListener : VCRef; v.lbl = a; i += 2; return true;
+    }
+    if (k == "ca") {
+        uint64_t h, rc, n;
+        if (i + 3 >= t.size() || !nat(t[i + 1], h) || !nat(t[i + 2], rc) || !nat(t[i + 3], n)) return false;
+        v.kind = VCArr; v.lbl = h; v.rc = rc; i += 4;
+        for (uint64_t e = 0; e < n; ++e) {
+            uint64_t self;
+            if (i >= t.size() || !nat(t[i], self)) return false;
+            i += 1;
+            v.elems.emplace_back();
+            v.elems.back().first = self;
+            if (!parseValue(t, i, v.elems.back().second)) return false;
+        }
+        return true;
+    }
+    return false;
+}
 bool parseN(const std::vector<std::string>& t, size_t& i, size_t n, std::vector<ItemT>& out)
 {
     for (size_t k = 0; k < n; ++k) {
@@ -299,6 +475,13 @@ bool parseItem(const std::vector<std::string>& t, size_t& i, ItemT& it)
         i += 2;
         return true;
     }
+    if (k == "v") {
+        if (i + 1 >= t.size() || !nat(t[i + 1], v)) return false;
+        it.kind = KVal;
+        it.lbl = v;
+        i += 2;
+        return parseValue(t, i, it.val);
+    }
     if (k == "obj") {
         uint64_t n;
         if (i + 3 >= t.size() || !nat(t[i + 1], v) || !unhex(t[i + 2], it.bytes) || !nat(t[i + 3], n)) return false;
@@ -310,7 +493,7 @@ bool parseItem(const std::vector<std::string>& t, size_t& i, ItemT& it)
     return false;
 }
 
-void showItems(const std::vector<ItemT>& items, const Run& run, std::string& s)
+void showItems(const std::vector<ItemT>& items, Run& run, std::string& s)
 {
     bool first = true;
     for (const ItemT& it : items) {
@@ -323,6 +506,14 @@ void showItems(const std::vector<ItemT>& items, const Run& run, std::string& s)
         case KPtr: s += "op " + std::to_string(run.labelOf(run.plain[it.slot])); break;
         case KSafe: s += "sp " + std::to_string(run.labelOf(run.safe[it.slot].Pointer())); break;
         case KPos: s += "pos " + std::to_string(it.lbl); break;
+        case KVal: {
+            std::vector<size_t> supply;
+            supplyOf(it.val, supply);
+            size_t next = 0;
+            s += "v " + std::to_string(it.lbl) + " ";
+            run.render(run.vars[it.slot], supply, next, s);
+            break;
+        }
         case KObj:
             s += "obj " + std::to_string(it.lbl) + " " + hexOf(it.bytes) + " " + std::to_string(it.body.size());
             if (!it.body.empty()) { s += ' '; showItems(it.body, run, s); }
@@ -477,6 +668,7 @@ int main(int argc, char** argv)
             {
                 Run run;
                 run.collect(cur.items);
+                run.prebuild(cur.items);
                 std::vector<ItemT> out;
                 version_info_t info;
                 info.header = cur.header.c_str();
